@@ -446,6 +446,19 @@ def workload(run):
             run.count("catalogue_cut_short")
             break
 
+    # (1b) the same integrals after the library itself moved the mesh (values warm or cold)
+    k = 0
+    for tag, V, F in gm.closed_meshes(rng, count=4 if quick else 20):
+        for cls, L in INT_MATRICES:
+            for warm in (True, False):
+                idx += 1
+                k += 1
+                if not run.mine(idx):
+                    continue
+                check_after_transform(run, tag, V, F, cls, L, [3, -2, 5] if k % 2 else [0, 0, 0], warm)
+        if run.out_of_time(0.45):
+            break
+
     # (2) zero-volume pillows: only volume / area are judged
     for k in range(3):
         idx += 1
@@ -487,7 +500,69 @@ def workload(run):
     run.count("random_solids", n)
 
 
+INT_MATRICES = [
+    ("shear_unimodular", [[1, 2, 0], [0, 1, 0], [0, 0, 1]]),
+    ("unimodular", [[2, 1, 0], [1, 1, 0], [0, 1, 1]]),
+    ("aniso", [[2, 0, 0], [0, 1, 0], [0, 0, 3]]),
+    ("mirror", [[1, 0, 0], [0, 1, 0], [0, 0, -1]]),
+    ("mirror_shear", [[1, 1, 0], [0, -1, 0], [0, 0, 1]]),
+    ("rot90", [[0, -1, 0], [1, 0, 0], [0, 0, 1]]),
+    ("uniform2", [[2, 0, 0], [0, 2, 0], [0, 0, 2]]),
+]
+
+
+def check_after_transform(run, tag, V, F, cls, L, t, warm):
+    """
+    The integrals of a mesh that was MOVED by the library (apply_transform with an integer
+    matrix, values read beforehand or not) against the exact integrals of the moved integer
+    vertices: the statement is about the current solid, whatever was computed before.
+    """
+    import trimesh  # noqa
+
+    L = np.array(L, dtype=np.int64)
+    t = np.array(t, dtype=np.int64)
+    m = gm.to_trimesh(V, F)
+    if warm:
+        _ = (m.area, m.area_faces, m.volume, m.center_mass, m.moment_inertia, m.mass_properties, m.face_normals)
+    M = np.eye(4)
+    M[:3, :3] = L
+    M[:3, 3] = t
+    case = {"route": "after_transform", "tag": tag, "V": np.asarray(V).tolist(), "F": np.asarray(F).tolist(),
+            "cls": cls, "L": L.tolist(), "t": t.tolist(), "warm": bool(warm)}
+    try:
+        m.apply_transform(M)
+        got = {"area": float(m.area), "volume": float(m.volume), "center_mass": np.array(m.center_mass, dtype=np.float64),
+               "inertia": np.array(m.moment_inertia, dtype=np.float64)}
+    except Exception as e:  # noqa
+        run.violation("route=after_transform class=%s warm=%s sym=exception:%s" % (cls, warm, type(e).__name__),
+                      "reading mass properties after apply_transform raised", dict(case, error=repr(e)))
+        return
+    V2 = np.asarray(V, dtype=np.int64) @ L.T + t
+    det = int(round(np.linalg.det(L.astype(np.float64))))
+    F2 = np.asarray(F)[:, ::-1] if det < 0 else np.asarray(F)
+    em = exact_mass(V2, F2)
+    run.case("after_transform:%s:%s" % (cls, "warm" if warm else "cold"), np.asarray(V), np.asarray(F), cls, warm,
+             nontrivial=True)
+    size = float(np.abs(V2).max()) + 1.0
+    vol = float(em.volume)
+    checks = [("area", got["area"], em.area, 1e-9 * max(1.0, em.area)),
+              ("volume", got["volume"], vol, 1e-9 * max(1.0, size ** 3))]
+    if abs(vol) > 1e-9:
+        cm = np.array([float(x) for x in em.center_mass()])
+        checks.append(("center_mass", got["center_mass"], cm, 1e-9 * size))
+        I = np.array([[float(x) for x in row] for row in em.inertia_com()])
+        checks.append(("inertia", got["inertia"], I, 1e-9 * max(1.0, size ** 5)))
+    for name, g, w, tol in checks:
+        if not np.all(np.abs(np.asarray(g) - np.asarray(w)) <= tol):
+            run.violation("route=after_transform class=%s warm=%s qty=%s sym=wrong_value" % (cls, "yes" if warm else "no", name),
+                          "`%s` of a mesh moved by apply_transform differs from the exact integral over the moved solid" % name,
+                          dict(case, got=np.asarray(g).tolist(), want=np.asarray(w).tolist()))
+
+
 def replay(run, case):
+    if isinstance(case, dict) and case.get("route") == "after_transform":
+        check_after_transform(run, case["tag"], np.array(case["V"]), np.array(case["F"]), case["cls"], case["L"], case["t"], case["warm"])
+        return
     V = np.array(case["V"], dtype=np.int64)
     F = np.array(case["F"], dtype=np.int64)
     rng = np.random.default_rng(0)
